@@ -60,21 +60,35 @@ Proof. exact step_current_returns. Qed.
 Theorem C18_convert_agrees_with_now : forall s q, overlay_now s q = tfu s q.
 Proof. exact convert_agrees_with_now. Qed.
 
-(** Every successful conversion is the affine map t + shift + corr. *)
-Theorem C18_conversion_is_affine : forall s t r,
+(** Every successful conversion is the affine map t + shift + corr, with both
+    additions saturating at the ends of the `Time` range ... *)
+Theorem C18_conversion_is_affine_sat : forall s t r,
   tfu s t = Ok r ->
   exists p, float_to_fixed (ppm s) = Ok p /\
-            r = reading_z (last_sync s) (shift s) p t /\
-            0 <= r < 2 ^ 128 /\ - 2 ^ 127 <= t < 2 ^ 127.
+            r = reading_sat (last_sync s) (shift s) p t /\
+            (0 <= t -> 0 <= r < 2 ^ 128) /\ - 2 ^ 127 <= t < 2 ^ 127.
 Proof. exact tfu_inv. Qed.
 
-(** rate_bound: between two readings after the last adjustment the clock
+(** ... hence the affine map itself when neither addition saturates, which is
+    the case for every reading at or after the anchor inside the domain. *)
+Theorem C18_conversion_is_affine : forall s t r p,
+  float_to_fixed (ppm s) = Ok p -> exact_at s p t -> tfu s t = Ok r ->
+  r = reading_z (last_sync s) (shift s) p t.
+Proof. exact tfu_exact. Qed.
+
+Theorem C18_no_saturation_in_domain : forall t0 k s p q,
+  0 <= k -> Inv t0 k s -> (k + 1) * B_STEP <= t0 -> last_sync s <= q < TMAX ->
+  float_to_fixed (ppm s) = Ok p -> exact_at s p q.
+Proof. exact inv_exact_at. Qed.
+
+(** rate_bound: between two (unsaturated) readings after the last adjustment the clock
     advances by dt * (1 + p/(10^6 * 2^32)) with an error BELOW ONE unit of
     2^-32 ns, hence (second part) within the stated 2^-32 ns * (2 + dt/10^6)
     of dt * (1 + ppm/10^6) for the exact rational value of the f64 ppm. *)
 Theorem C18_rate_bound : forall s p t1 t2 r1 r2,
   float_to_fixed (ppm s) = Ok p ->
   last_sync s <= t1 <= t2 ->
+  exact_at s p t1 -> exact_at s p t2 ->
   tfu s t1 = Ok r1 -> tfu s t2 = Ok r2 ->
   Z.abs (MEGA * FRAC * ((r2 - r1) - (t2 - t1)) - (t2 - t1) * p) < MEGA * FRAC /\
   rate_ok (ppm s) (t2 - t1) r1 r2 = true.
@@ -87,9 +101,11 @@ Theorem C18_ppm_conversion : forall f p,
               Z.abs (2 * (p * 2 ^ k) - 2 * (n * FRAC)) <= 2 ^ k.
 Proof. exact to_fixed_q. Qed.
 
-(** step_exact, code as it is, ppm = +-0.0: exact (no range hypothesis). *)
+(** step_exact, code as it is, ppm = +-0.0: exact whenever the readings before
+    and after are representable (`Time + Duration` saturates otherwise). *)
 Theorem C18_step_exact_zero_ppm : forall s t off pre s' ret,
   float_is_zero (ppm s) = true ->
+  0 <= t + shift s < 2 ^ 128 -> 0 <= t + shift s + off < 2 ^ 128 ->
   tfu s t = Ok pre ->
   step_clock_current s t off = Ok (s', ret) ->
   ret = pre + off /\ tfu s' t = Ok ret.
@@ -115,7 +131,7 @@ Proof. exact C18_refuted_current. Qed.
 (** PROPOSED REPAIR: step_exact for every ppm ... *)
 Theorem C18_step_exact_fixed : forall s t off pre s' ret,
   0 <= t ->
-  tfu s t = Ok pre ->
+  tfu s t = Ok pre -> 0 <= pre + off < 2 ^ 128 ->
   step_clock_fixed s t off = Ok (s', ret) ->
   ret = pre + off /\ tfu s' t = Ok ret /\
   last_sync s' = t /\ shift s' = ret - t /\ ppm s' = ppm s.
